@@ -400,6 +400,26 @@ pub fn build(p: &P) -> Cmd {
                 ctx.send_event(Event::mark(m, 0));
             });
         }),
+        P::JoinForward(s, u, m) => Command::new(move |ctx| async move {
+            let (tx, rx) = async_channel::unbounded::<u32>();
+            ctx.spawn(move |ctx| async move {
+                let left = async {
+                    let w = areq(&ctx, u, 0).await;
+                    ctx.send_event(Event::got(u, w));
+                };
+                let right = async {
+                    let v = areq(&ctx, s, 0).await;
+                    let _ = tx.send(v).await;
+                };
+                futures::join!(left, right);
+            });
+            ctx.spawn(move |ctx| async move {
+                while let Ok(v) = rx.recv().await {
+                    ctx.send_event(Event::got(s, v));
+                }
+                ctx.send_event(Event::mark(m, 0));
+            });
+        }),
         P::AbortChild(s, t, m) => Command::new(move |ctx| async move {
             let jh = ctx.spawn(move |ctx| async move {
                 let mut st = astream(&ctx, s, 0);
